@@ -61,6 +61,10 @@ func fmtArg(fr *frame, a value, verb byte) []value {
 		if i.t == nil {
 			return toBytes("<nil>")
 		}
+		if fmtOpaqueSym && hasSym(i.v, 0) && (hasMethod(fr, i.t, "Error") || hasMethod(fr, i.t, "String")) {
+			// error-message formatting of a value with symbolic parts: messages are never the subject of a property
+			return toBytes("<" + i.t.String() + ">")
+		}
 		if verb != 'T' && verb != 'd' && verb != 'x' && verb != 'q' {
 			if hasMethod(fr, i.t, "Error") {
 				if p, ok := i.v.(*value); ok && p == nil {
@@ -392,6 +396,8 @@ func mkError(fr *frame, msg value) iface {
 
 type wrapErr struct{}
 
+var fmtOpaqueSym bool
+
 func init() {
 	ext("fmt.Sprintf", func(fr *frame, a []value) value {
 		return mkStr(sprintf(fr, argString(a[0]), a[1].([]value)))
@@ -399,7 +405,9 @@ func init() {
 	ext("fmt.Errorf", func(fr *frame, a []value) value {
 		format := argString(a[0])
 		args := a[1].([]value)
+		fmtOpaqueSym = true
 		msg := mkStr(sprintf(fr, strings.Replace(format, "%w", "%v", -1), args))
+		fmtOpaqueSym = false
 		if k := strings.Index(format, "%w"); k >= 0 {
 			// find which operand %w refers to
 			n := 0
